@@ -114,6 +114,27 @@ class Obj(object):
                         p=lambda x: tuple(ll.compute_pointwise_ll(x)),
                         s=lambda x: _s1(ll.evaluateS1(x)))
 
+    def _build_ll_red_em(self, tag, shared=None):
+        """likelihood whose user-supplied error model is a ReducedErrorModel
+        that already has a fixed parameter"""
+        B = self.B
+        if shared is None:
+            um = SymMechModel(B, n_params=2, n_outputs=1)
+            em = chi.ReducedErrorModel(
+                chi.ConstantAndMultiplicativeGaussianErrorModel())
+            em.fix_parameters({'Sigma base': B.var('sb_user')})
+        else:
+            um, em = shared
+        obs = self._watch(ps.arr(B, [B.var('y%s%d' % (tag, j))
+                                     for j in range(2)]))
+        self.user = dict(mech=um, em=em)
+        ll = chi.LogLikelihood(um, em, obs, [1.0, 2.5])
+        self.obj = ll
+        self.n = ll.n_parameters()
+        self.ops = dict(v=lambda x: (ll(x),),
+                        p=lambda x: tuple(ll.compute_pointwise_ll(x)),
+                        s=lambda x: _s1(ll.evaluateS1(x)))
+
     def _build_hier(self, tag):
         B = self.B
         H = hier.build(B, dict(
@@ -274,6 +295,10 @@ def case_user_mutation(B, cfg):
             um.enable_sensitivities(True)
         elif mut == 'administration':
             um.set_administration('central', direct=False)
+        elif mut == 'refix_em':
+            em.fix_parameters({'Sigma base': B.var('sb_other')})
+        elif mut == 'release_em':
+            em.fix_parameters({'Sigma base': None})
     except Exception as e:
         B.note('mutation', 'not applicable: %r' % (e,))
         return
@@ -291,8 +316,43 @@ def case_user_mutation(B, cfg):
                  % (mut, op, k), a, b)
 
 
+def case_shared_models(B, cfg):
+    """two likelihoods built from the *same* user models; re-configuring
+    one of them (or the user's models) must not change the other"""
+    if not B.symbolic:
+        return
+    a = Obj(B, 'll_red_em', tag='a')
+    b = Obj.__new__(Obj)
+    b.B, b.kind, b.user, b.inputs = B, 'll_red_em', {}, []
+    b._build_ll_red_em('b', shared=(a.user['mech'], a.user['em']))
+    x = a.pt('x')
+    assume_support(B, x)
+    B.assume(B.var('sb_user') > 0)
+    before = {op: run_op(B, a, (op, 'x'), dict(x=x))[0] for op in 'vps'}
+    step = cfg['step']
+    if step == 'sibling_fix':
+        b.obj.fix_parameters({'Sigma rel.': B.var('rel_fix')})
+    elif step == 'sibling_refix_shared':
+        b.obj.fix_parameters({'Sigma base': B.var('sb_sibling')})
+    elif step == 'sibling_eval':
+        run_op(B, b, ('s', 'x'), dict(x=x))
+        run_op(B, b, ('v', 'x'), dict(x=x))
+    elif step == 'user_refix':
+        a.user['em'].fix_parameters({'Sigma base': B.var('sb_other')})
+    elif step == 'user_rename':
+        a.user['em'].set_parameter_names(['renamed'])
+    B.fact('names of the first likelihood unchanged',
+           a.obj.get_parameter_names() == Obj(
+               B, 'll_red_em', tag='a').obj.get_parameter_names())
+    for op in 'vps':
+        after = run_op(B, a, (op, 'x'), dict(x=x))[0]
+        for k, (u, v) in enumerate(zip(before[op], after)):
+            B.eq('after %s: %s result[%d] of the other likelihood unchanged'
+                 % (step, op, k), v, u)
+
+
 KINDS = ['ll_pk', 'll_pk_fixed', 'post_pk', 'll_sym', 'hier', 'filterpost',
-         'red_em', 'red_pop', 'filter']
+         'red_em', 'red_pop', 'filter', 'll_red_em']
 
 
 def jobs(tier):
@@ -310,7 +370,7 @@ def jobs(tier):
                     continue
                 out.append(('seq', 'case_seq', dict(
                     kind=kind, seq=[list(s) for s in seq]), facade))
-        if kind in ('ll_pk', 'll_sym', 'red_em', 'll_pk_fixed'):
+        if kind in ('ll_pk', 'll_sym', 'red_em', 'll_pk_fixed', 'll_red_em'):
             sib = list(itertools.product(two_ops, repeat=2))
             sib = [s for s in sib if s[0][0] != s[1][0]]
             if not q:
@@ -324,6 +384,16 @@ def jobs(tier):
         for mut in ('rename', 'regimen', 'outputs', 'sens', 'administration'):
             out.append(('user_mutation', 'case_user_mutation',
                         dict(kind=kind, mutation=mut), FACADE))
+    for mut in ('refix_em', 'release_em', 'rename', 'sens'):
+        out.append(('user_mutation', 'case_user_mutation',
+                    dict(kind='ll_red_em', mutation=mut),
+                    {'diffcheck': False, 'facts_final': True,
+                     'confirm_by_terms': True}))
+    for step in ('sibling_fix', 'sibling_refix_shared', 'sibling_eval',
+                 'user_refix', 'user_rename'):
+        out.append(('shared_models', 'case_shared_models', dict(step=step),
+                    {'diffcheck': False, 'facts_final': True,
+                     'confirm_by_terms': True}))
     for kind in ('ll_sym', 'hier'):
         for mut in ('rename', 'sens'):
             out.append(('user_mutation', 'case_user_mutation',
